@@ -60,6 +60,10 @@ def gen_table(rng, tier="quick", ints=None, missing=None):
             for j in valid_idx:
                 if vals[j] == mv:
                     vals[j] = 3
+            if not is_int and valid_idx and rng.random() < 0.25:
+                # a real value right next to the missing-value marker stays a value
+                near = mv + rng.choice([4e-6, -3e-6]) * max(1.0, abs(mv)) if mv else rng.choice([1e-9, -2e-9])
+                vals[rng.choice(valid_idx)] = near
         elif has_missing:
             mv = -9999  # declared but absent from the data
         cols.append({"name": "c%d" % i, "type": "Integer" if is_int else "Float", "missing": mv, "values": vals})
